@@ -161,6 +161,8 @@ def make_turtle_config(spec):
     sim["tis_set"]["allowmaxlength"] = bool(spec.get("allowmaxlength", False))
     sim["tis_set"]["maxlength"] = spec.get("maxlength", 2000)
     sim["tis_set"]["n_jumps"] = spec.get("n_jumps", 2)
+    if spec.get("subcycles"):
+        cfg["engine"]["subcycles"] = int(spec["subcycles"])
     cfg["output"] = {"data_dir": "./", "screen": 1, "pattern": False,
                      "delete_old": bool(spec.get("delete_old", False))}
     if spec.get("delete_old_all"):
